@@ -45,6 +45,14 @@ def main(argv: List[str]) -> int:
             if pr:
                 run.violation(f"typed:{d.pyname}:{pr.split(':')[0]}", f"structuring a valid {d.pyname} yields an ill-typed object graph: {pr}", {"input": j, "replay": f"converter.structure(<input>, lsprotocol.types.{d.pyname}) then the isinstance walk of oracle/pytypes.typed_problem"}, True)
                 break
+    # ---- "an instance of the requested class" also when the requested class is a user subclass of a generated class
+    from lib.sweeps import subclass_probe
+
+    sub_n = 0
+    for pr in subclass_probe(live, mm, decls):
+        sub_n += 1
+        if pr["kind"] in ("type", "raises") and sub_n <= 12:
+            run.violation(f"subclass:{pr['class']}:{pr['kind']}", pr["detail"], {"input": pr["input"], "replay": f"Sub = type('{pr['class']}', (lsprotocol.types.{pr['class']},), {{}}); converter.structure(<input>, Sub)"}, True)
     run.assume(*U.ASSUMPTIONS, "typedness of non-union positions follows from the annotation facet (annotation = mapping of the metamodel type, no unresolved reference) and the cattrs rows; the sweep exercises it on every class")
     return run.finish(
         {
